@@ -146,6 +146,8 @@ func (ex *Executor) zero(t types.Type) Val {
 		return &SyncMapV{}
 	case isNamed(t, "time", "Time"):
 		return smt.IntC(0)
+	case isNamed(t, "bytes", "Buffer"):
+		return &BufV{S: smt.StrC("")}
 	}
 	switch u := t.Underlying().(type) {
 	case *types.Basic:
